@@ -671,6 +671,11 @@ def check(case, obs, tally):
         out.append({"clause": "crash", "sig": "C04.crash/%s/%s" % (short.split(".")[0] if not short.startswith("h2/") else short, exc_name),
                     "detail": "connection handler raised: %s" % (obs.handler_exc or "")[-900:]})
     for kind, text in obs.sanitizers:
+        if kind == "unraisable" and "hypercorn" not in text:
+            # swallowed by the interpreter outside the server's code (typically a generator of an earlier case being collected): cannot
+            # be attributed to this case's input
+            tally.notes["unraisable-outside-server-code:%s" % text.split(" object=")[0][:80]] += 1
+            continue
         if kind in ("loop", "unraisable"):
             out.append({"clause": "crash", "sig": "C04.sanitizer/%s/%s" % (kind, short.split(".")[0]),
                         "detail": text[:500]})
